@@ -63,7 +63,7 @@ def classify(expr):
   k = expr.get_id()
   r = _CLS_CACHE.get(k)
   if r is not None:
-    return r
+    return r[1]
   seen = set()
   out = set()
   stack = [expr]
@@ -88,8 +88,8 @@ def classify(expr):
     else:
       out.add("uf")
   r = frozenset(out)
-  if len(_CLS_CACHE) > 200000: _CLS_CACHE.clear()
-  _CLS_CACHE[k] = r
+  if len(_CLS_CACHE) > 100000: _CLS_CACHE.clear()
+  _CLS_CACHE[k] = (expr, r)      # holding the AST keeps its id from being recycled while cached
   return r
 
 
@@ -497,12 +497,15 @@ class Ctx:
         sol = z3.Solver()
         sol.set("timeout", self.timeout_ms)
         for e in parts: sol.add(e)
+        sol.push()
         for name, (kind, c) in self.vars.items():
           if kind in ("real", "int", "aux"):
             v = full.eval(c)
             if z3.is_int_value(v) or z3.is_rational_value(v):
               sol.add(c == v)
-        if str(sol.check()) != "sat": return None
+        if str(sol.check()) != "sat":
+          sol.pop()                       # pins came from model completion: drop them
+          if str(sol.check()) != "sat": return None
         full = sol.model()
     elem_classes = {}
     for name, (kind, c) in self.vars.items():
